@@ -80,6 +80,35 @@ func (f *frame) callResolved(st *State, ins *ssa.Call, cc *ssa.CallCommon, fnv V
 		ex.assumed["assumed contract: "+name] = true
 		return m(f, st, ins, args)
 	}
+	if strings.HasPrefix(name, "slices.Contains") && len(args) == 2 {
+		// slices.Contains(s, v): some element equals v (documented behaviour)
+		if sl, ok := args[0].(VSlice); ok {
+			ex.assumed["assumed contract: slices.Contains"] = true
+			res := ex.decls.fresh("contains", SBool)
+			q := "sc_" + sanitize(res)
+			var eqAt func(i T) T
+			switch v := args[1].(type) {
+			case VSlice:
+				eqAt = func(i T) T {
+					if e, ok := f.readElem(st, sl, i).(VSlice); ok {
+						return seqEqTerms(ex, st, e, v)
+					}
+					return "false"
+				}
+			case VInt:
+				eqAt = func(i T) T {
+					if e, ok := f.readElem(st, sl, i).(VInt); ok {
+						return tEq(e.T, v.T)
+					}
+					return "false"
+				}
+			}
+			if eqAt != nil && f.quant() {
+				st.assume(tEq(res, tExists(q, tAnd(tLe("0", q), tLt(q, sl.Len), eqAt(q)))))
+				return VBool{res}
+			}
+		}
+	}
 	ex.assumed["library function assumed total, panic-free, result unconstrained: "+name] = true
 	res := f.havocResult(st, callee.Signature.Results(), sanitize(callee.Name()))
 	if nonNilFns[name] {
@@ -576,6 +605,13 @@ func (f *frame) loopSpec(li *loopInfo) *LoopSpec {
 	if f.con == nil {
 		return nil
 	}
+	if m := f.ex.prog.loopRemapOf(f.key); m != nil {
+		k, ok := m[li.ordinal]
+		if !ok {
+			return nil
+		}
+		return f.con.Loops[k]
+	}
 	return f.con.Loops[li.ordinal]
 }
 
@@ -772,9 +808,14 @@ func (f *frame) invariants(st *State, li *loopInfo, ls *LoopSpec) (labels []stri
 	// invariants to the loops of such helpers; like all candidates they are proved or dropped
 	if f.inlined && f.con == nil && ex.top != nil && ex.top.con != nil && !ex.initMode {
 		nTop := len(ex.top.loops)
+		assigned := map[int]bool{}
+		remap := ex.prog.loopRemapOf(ex.top.key)
+		for _, k := range remap {
+			assigned[k] = true
+		}
 		var ords []int
 		for k := range ex.top.con.Loops {
-			if k > nTop {
+			if (remap == nil && k > nTop) || (remap != nil && !assigned[k]) {
 				ords = append(ords, k)
 			}
 		}
